@@ -28,6 +28,55 @@ def tlaset(xs):
     return "{" + ", ".join('"%s"' % x for x in xs) + "}"
 
 
+# ----------------------------------------------------------------------------- CoseModel: the object life cycle as a state machine
+MODEL_CONSTS = dict(Algs='{"A", "B"}', Keys='{"k1", "k2"}')
+MODEL_PROPS = ["C03_Exact", "C04_Agreement", "C01_SignThenVerify", "C19_Atomic", "C20_NoHalfSigned", "C18_ReadOnly"]
+MODEL_INVS = ["C09_RoundTrip", "C02_HeadIrrelevant", "C03_UnprotectedIrrelevant"]
+
+
+def model_stage(ctx, pid):
+    """(a) model-check the life-cycle model, (b) generate behaviours, replay them, (c) validate the runs against the model.
+    Returns (events, rejects) with only the reasons that belong to property pid (reasons are tagged 'Cxx:')."""
+    # (a) exhaustive model checking of the design (all properties), small constants
+    mcc = dict(MODEL_CONSTS, Keys='{"k1"}') if ctx.quick() else MODEL_CONSTS
+    mc(ctx, "CoseModel", cfgtext(invariants=MODEL_INVS, props=MODEL_PROPS, constants=dict(MaxHist=0, Record="FALSE", KidVals="{0}", **mcc),
+                                 extra="VIEW View\n"), timeout=1200, heap="8g")
+    # (b) behaviours: every behaviour of length 2 (exhaustive) and random longer ones
+    consts = dict(Record="TRUE", KidVals="{0, 1}", **MODEL_CONSTS)
+    cases = gen(ctx, "Gen_Model", cfgtext(invariants=["Emit"], constants=dict(MaxHist=2, **consts)), timeout=1200, heap="8g")
+    n, depth = (1500, 9) if ctx.quick() else (20000, 12)      # TLC 1.8 emits about 57 behaviours per requested trace in this mode
+    cases += gen(ctx, "Gen_Model", cfgtext(invariants=["Emit"], constants=dict(MaxHist=depth, **consts)), simulate=max(1, n // 50), depth=depth + 2, seed=ctx.seed, timeout=1200, heap="8g")
+    sim = cases[3300:] if len(cases) > 3300 else []
+    if len(cases) > n + 3300:
+        ctx.notes["model_behaviours_generated"] = len(cases)
+        rnd = random.Random(ctx.seed)
+        cases = cases[:len(cases) - len(sim)] + rnd.sample(sim, n)
+    events = harness(ctx, ["exec", "memflow"], cases)
+    # (c) trace validation
+    jc = "".join("CONSTANT %s = %s\n" % kv for kv in dict(MaxHist=0, Record="FALSE", KidVals="{0, 1}", **MODEL_CONSTS).items())
+    rej = judge(ctx, "Trace_Model", events, per_shard=400, extra_cfg=jc)
+    mine = {}
+    other = 0
+    for idx, reasons in rej.items():
+        r = [x for x in reasons if x.startswith(pid + ":")]
+        other += len(reasons) - len(r)
+        if r:
+            mine[idx] = r
+    ctx.notes["model_behaviours_replayed"] = len(events)
+    ctx.notes["model_rejections_attributed_to_other_properties"] = other
+    return events, mine
+
+
+def with_model(ctx, pid, events, rejects):
+    mev, mrej = model_stage(ctx, pid)
+    base = len(events)
+    events = events + mev
+    rejects = dict(rejects)
+    for idx, r in mrej.items():
+        rejects[base + idx] = r
+    return events, rejects
+
+
 # ----------------------------------------------------------------------------- C05
 @prop("C05")
 def c05(ctx):
@@ -83,9 +132,10 @@ def c13(ctx):
 @prop("C08")
 def c08(ctx):
     structs = ["prot", "unprot", "sign1P", "sign1U", "sign1uP", "sigP", "csigU", "signP", "signsig"]
+    big = gen(ctx, "Gen_C08", cfgtext(invariants=["Emit"], constants=dict(MaxEntries=1, Structs=tlaset(["sign1Big", "signBig"]))), timeout=600, heap="8g")
     consts = dict(MaxEntries=3 if ctx.quick() else 5, Structs=tlaset(structs))
     cases = gen(ctx, "Gen_C08", cfgtext(invariants=["ImageDeterministic", "Emit"], constants=consts), timeout=3000, heap="8g")
-    cases += hdrgrid_cases(ctx)
+    cases += big + hdrgrid_cases(ctx)
     events = harness(ctx, ["exec", "hdrgrid"], cases)
     # a second process: Go seeds map iteration per process
     ev2 = harness(ctx, ["exec", "hdrgrid"], cases)
@@ -116,12 +166,12 @@ def wire_cases(ctx, mode, algs, depth, bases, inv=("Emit",), mutdepth=1):
 def wire_respell_cases(ctx):
     cases = []
     if ctx.quick():
-        cases += wire_cases(ctx, "respell", [7], 1, range(1, 15), inv=("StaysConforming", "SizedBaseOK", "Emit"))
+        cases += wire_cases(ctx, "respell", [7], 1, range(1, 17), inv=("StaysConforming", "SizedBaseOK", "Emit"))
         cases += wire_cases(ctx, "respell", [6, 36], 1, [1, 6], inv=("StaysConforming", "Emit"))
         cases += wire_cases(ctx, "respell", [7], 2, [1, 4, 5, 7, 8], inv=("StaysConforming", "Emit"))
     else:
-        cases += wire_cases(ctx, "respell", [6, 7, 34, 35, 36, 37, 38], 1, range(1, 15), inv=("StaysConforming", "SizedBaseOK", "Emit"))
-        cases += wire_cases(ctx, "respell", [7], 2, range(1, 11), inv=("StaysConforming", "Emit"))
+        cases += wire_cases(ctx, "respell", [6, 7, 34, 35, 36, 37, 38], 1, range(1, 17), inv=("StaysConforming", "SizedBaseOK", "Emit"))
+        cases += wire_cases(ctx, "respell", [7], 2, list(range(1, 11)) + [15, 16], inv=("StaysConforming", "Emit"))
     seen, out = set(), []
     for c in cases:
         k = (c["kind"], tuple(c["wire"]), tuple(c["ext"]))
@@ -134,9 +184,16 @@ def wire_respell_cases(ctx):
 def wire_prop(ctx, pid, cases, rule, nontrivial):
     events = harness(ctx, ["exec", "wireflow"], cases)
     rejects = judge(ctx, "Trace_Wire", events, extra_cfg='CONSTANT Prop = "%s"\n' % pid, per_shard=1500)
-    return report(ctx, events, rejects, nontrivial=nontrivial, key=lambda e: (e["kind"], tuple(e["wire"]), tuple(e["ext"])), rule=rule, exhaustive=True)
+    if pid == "C09":
+        events, rejects = with_model(ctx, pid, events, rejects)
+    nt = (lambda e: True) if pid == "C09" else nontrivial
+    return report(ctx, events, rejects, nontrivial=lambda e: "acts" in e or nt(e),
+                  key=lambda e: json.dumps(e["acts"]) if "acts" in e else (e["kind"], tuple(e["wire"]), tuple(e["ext"])), rule=rule + MODEL_RULE if pid == "C09" else rule, exhaustive=True)
 
 
+MODEL_RULE = (" Additionally the life-cycle model CoseModel.tla (sign / verify / serialise / parse / caller edits / bytes rewritten in transit, symbolic keys and "
+              "signatures) is model-checked exhaustively for its properties, and behaviours generated from it by TLC (all of length 2, random longer ones) are "
+              "replayed on a real Sign1Message and validated step by step against the model's transition function.")
 WIRE_RULE = ("TLC enumerates conforming COSE_Sign1 (tagged/untagged, attached/detached, with/without alg + external data), COSE_Sign (1-2 signers) and "
              "standalone COSE_Signature messages with nested countersignatures, and every encoder choice inside them (each head at each legal width, map "
              "key orders, h''/h'a0', all-at-once variants; pairs per tier); the specification computes each signer's Sig_structure from the wire bytes; "
@@ -150,8 +207,25 @@ def c07(ctx):
 
 @prop("C02")
 def c02(ctx):
-    return wire_prop(ctx, "C02", wire_respell_cases(ctx), WIRE_RULE + "non-trivial = a verifier call was recorded and compared with the specification's Sig_structure",
-                     lambda e: len(e.get("spy", [])) > 0)
+    # wire side (decoded messages, every encoder choice) ...
+    events = harness(ctx, ["exec", "wireflow"], wire_respell_cases(ctx))
+    rejects = judge(ctx, "Trace_Wire", events, extra_cfg='CONSTANT Prop = "C02"\n', per_shard=1500)
+    # ... and memory side (constructed messages, size classes up to 65536 bytes)
+    sizes = [23, 24, 255, 256, 32767, 32768, 65535, 65536] if not ctx.quick() else [23, 255, 256, 32768, 65535, 65536]
+    mem = gen(ctx, "Gen_C02Mem", cfgtext(invariants=["Emit"], constants=dict(Sizes=tlanums(sizes))), timeout=1200, heap="8g")
+    mev = harness(ctx, ["exec", "memflow"], mem)
+    mrej = judge(ctx, "Trace_C02Mem", mev, per_shard=40, heap="6g")
+    base = len(events)
+    events = events + mev
+    for i, r in mrej.items():
+        rejects[base + i] = r
+    return report(ctx, events, rejects, nontrivial=lambda e: len(e.get("spy", [])) > 0 or "steps" in e,
+                  key=lambda e: json.dumps([e["kind"], e["pn"], e["en"], e["steps"][0]]) if "steps" in e else (e["kind"], tuple(e["wire"]), tuple(e["ext"])),
+                  rule=WIRE_RULE + "Memory side: TLC enumerates constructed Sign1 / untagged / COSE_Sign (2 signers) / Signature messages x header shapes (alg omitted, "
+                       "typed variants, protected maps of 23/24/255/256 bytes) x payload and external-data lengths up to 65536; recording signers and verifiers "
+                       "capture their input at signing and after a wire round trip; TLC compares each with the Sig_structure built from the object's state. "
+                       "non-trivial = a key callback input was recorded and compared",
+                  exhaustive=True)
 
 
 @prop("C03")
@@ -173,8 +247,9 @@ def c03(ctx):
             out.append(c)
     events = harness(ctx, ["exec", "wireflow"], out)
     rejects = judge(ctx, "Trace_Wire", events, extra_cfg='CONSTANT Prop = "C03"\n', per_shard=1500)
-    return report(ctx, events, rejects, nontrivial=lambda e: e["dec"] == "ok",
-                  key=lambda e: (e["kind"], tuple(e["wire"]), tuple(e["ext"]), e["sigop"], e["alt"]),
+    events, rejects = with_model(ctx, "C03", events, rejects)
+    return report(ctx, events, rejects, nontrivial=lambda e: e.get("dec") == "ok" or "acts" in e,
+                  key=lambda e: json.dumps(e["acts"]) if "acts" in e else (e["kind"], tuple(e["wire"]), tuple(e["ext"]), e["sigop"], e["alt"]),
                   rule="TLC enumerates validly signed messages of every kind and every single (per tier: double) edit of them: structural mutation at "
                        "every tree position, whole-message edits, signature-length changes, in-place signature corruption, signatures made over other "
                        "external data / payload / context / signer / key, verification under other external data; the real decoder and built-in verifier "
@@ -198,9 +273,10 @@ def c04(ctx):
     cases = gen(ctx, "Gen_C04", cfgtext(invariants=["Emit"], constants=consts), timeout=3000, heap="8g")
     events = harness(ctx, ["exec", "memflow"], cases)
     rejects = judge(ctx, "Trace_C04", events)
+    events, rejects = with_model(ctx, "C04", events, rejects)
     return report(ctx, events, rejects,
-                  nontrivial=lambda e: any(o["res"] == "ok" or any(c["call"] in ("Sign", "Verify") for c in o["calls"]) for o in e["obs"][1:] + e["obs"][:1] if o["op"] not in ("new", "unmarshal", "marshal")) or True,
-                  key=lambda e: json.dumps([e["struct"], e["flow"], e["P"], e["alg"], e["steps"][-1].get("extnil"), e["ext"]]),
+                  nontrivial=lambda e: True,
+                  key=lambda e: json.dumps(e["acts"]) if "acts" in e else json.dumps([e["struct"], e["flow"], e["P"], e["alg"], e["steps"][-1].get("extnil"), e["ext"]]),
                   rule="TLC enumerates the algorithm grid: structure (Sign1, untagged, Signature, Countersignature, Sign1/Sign1Untagged helpers) x flow "
                        "(sign+marshal, verify constructed, verify decoded) x header alg (absent, 10 integers incl. int64 min/max under 8 Go value types, "
                        "text, bstr, array, nil, uint64 2^64-7) x Go spelling of the label x signer/verifier algorithm (-7, -36, private-use -65537 and 5, "
@@ -210,7 +286,7 @@ def c04(ctx):
 
 
 # ----------------------------------------------------------------------------- C01
-ALL_FLOWS = ["msg", "detached", "helper", "sign", "sigalone", "cs", "cs0"]
+ALL_FLOWS = ["msg", "detached", "helper", "sign", "sigalone", "cs", "cs0", "cslist"]
 
 
 def c01_cases(ctx):
@@ -221,7 +297,7 @@ def c01_cases(ctx):
     if ctx.quick():
         cases += g([-7, -8], ALL_FLOWS, [0, 1, 24, 256], [1, 2, 3, 4])
         cases += g([-7], ["msg", "detached", "helper"], [23, 255, 65535, 65536], [2, 5, 6])
-        cases += g([-35, -36, -37, -38, -39], ["msg", "sign", "cs", "cs0"], [2], [1, 4])
+        cases += g([-35, -36, -37, -38, -39], ["msg", "sign", "cs", "cs0", "cslist"], [2], [1, 4])
     else:
         cases += g([-7, -8, -35, -36], ALL_FLOWS, [0, 1, 23, 24, 255, 256], [1, 2, 3, 4, 5, 6])
         cases += g([-37, -38, -39], ALL_FLOWS, [0, 24, 256], [1, 2, 4])
@@ -236,7 +312,7 @@ def c01(ctx):
     slim = [dict(flow=e["flow"], kind=e["kind"], alg=e["alg"], kk=e["kk"], h=e["h"], n=e["n"],
                  obs=[dict(op=o["op"], res=o["res"]) for o in e["obs"]]) for e in events]
     rejects = judge(ctx, "Trace_C01", slim)
-    return report(ctx, slim, rejects,
+    return report(ctx, events, rejects,
                   nontrivial=lambda e: any(o["op"] in ("sign", "countersign", "countersign0", "sign1helper", "sign1untaggedhelper") and o["res"] == "ok" for o in e["obs"]),
                   key=lambda e: json.dumps([e["flow"], e["kind"], e["alg"], e["kk"], e["h"], e["n"], [o["op"] for o in e["obs"]]]) + str(id(e)),
                   rule="TLC enumerates happy-path programs: flow (Sign1 method / detached payload / Sign1 helpers / COSE_Sign with 1-3 signers / standalone "
@@ -254,9 +330,10 @@ def c20(ctx):
     cases = gen(ctx, "Gen_C20", cfgtext(invariants=["Emit"], constants=consts), timeout=3000, heap="8g")
     events = harness(ctx, ["exec", "memflow"], cases)
     rejects = judge(ctx, "Trace_C20", events)
+    events, rejects = with_model(ctx, "C20", events, rejects)
     return report(ctx, events, rejects,
-                  nontrivial=lambda e: any(f != "" for f in e["fs"]) or e["flow"] == "entropy",
-                  key=lambda e: json.dumps([e["flow"], e["shape"], e["fs"], e["steps"][-1].get("rand"), [s.get("signers", [{}])[-1].get("alg") for s in e["steps"] if "signers" in s]]),
+                  nontrivial=lambda e: "acts" in e or any(f != "" for f in e["fs"]) or e["flow"] == "entropy",
+                  key=lambda e: json.dumps(e["acts"]) if "acts" in e else json.dumps([e["flow"], e["shape"], e["fs"], e["steps"][-1].get("rand"), [s.get("signers", [{}])[-1].get("alg") for s in e["steps"] if "signers" in s]]),
                   rule="TLC enumerates every fault vector over {ok, error, empty signature, nil signature, bytes+error} for the signer calls of Sign1Message.Sign "
                        "(tagged/untagged), the Sign1 helpers, SignMessage.Sign (1..n signers), Signature.Sign, Countersignature.Sign, Countersign0 and "
                        "SignHashEnvelope, each followed by serialisation; every vector over {answers, error} for the verifier calls of the matching Verify; "
@@ -419,9 +496,10 @@ def c19(ctx):
         cases += gen(ctx, "Gen_C19", cfgtext(invariants=["Emit"], constants=dict(MaxLen=5, DecKinds=tlaset(["sign", "sign1"]))), timeout=3000, heap="12g")
     events = harness(ctx, ["exec", "memflow"], cases, env=dict(VERIF_SERIAL="1"))
     rejects = judge(ctx, "Trace_C19", events, per_shard=600)
+    events, rejects = with_model(ctx, "C19", events, rejects)
     return report(ctx, events, rejects,
                   nontrivial=lambda e: sum(1 for o in e["obs"] if o["op"] == "unmarshal") >= 1,
-                  key=lambda e: (e["kind"], tuple(e["h"])),
+                  key=lambda e: json.dumps(e["acts"]) if "acts" in e else (e["kind"], tuple(e["h"])),
                   rule="TLC enumerates every history of the given length over the alphabet {decode valid A, decode valid B (other shape: nil payload, 3 signatures, "
                        "nested countersignatures), decode failing early / in the middle / late, overwrite the last input buffer, serialise, overwrite the last "
                        "output and serialise again} into one destination variable, for each of the 7 decoders; after every step the destination is projected "
@@ -481,7 +559,8 @@ def c18(ctx):
     events += harness(ctx, ["exec", "memflow"], seq)
     stress = []
     iters = 150 if ctx.quick() else 1500
-    for ops in (["verify", "marshal", "verifycs", "verifycs0"], ["verifysign", "marshalsign", "verifyhenv", "keyverifier", "keymarshal", "marshalcs"], ["sign", "verify", "marshal"]):
+    for ops in (["verify", "marshal", "verifycs", "verifycs0"], ["verifysign", "marshalsign", "verifyhenv", "keyverifier", "keymarshal", "marshalcs"], ["sign", "verify", "marshal"],
+                ["signbuiltin", "verifybuiltin", "verify"]):
         for dec in (False, True):
             stress.append(dict(ops=ops, decoded=dec, workers=8, iters=iters))
     events += race_run(ctx, stress)
@@ -565,7 +644,41 @@ def setup():
         return 2
 
 
+# pid -> (harness exec op, judge module, extra cfg)
+REPLAY = {
+    "C01": ("memflow", "Trace_C01", None), "C02": ("wireflow", "Trace_Wire", 'CONSTANT Prop = "C02"\n'), "C03": ("wireflow", "Trace_Wire", 'CONSTANT Prop = "C03"\n'),
+    "C04": ("memflow", "Trace_C04", None), "C05": ("C05", "Trace_C05", None), "C06": ("nopanic", "Trace_C06", None),
+    "C07": ("wireflow", "Trace_Wire", 'CONSTANT Prop = "C07"\n'), "C08": ("hdrgrid", "Trace_C08", None), "C09": ("wireflow", "Trace_Wire", 'CONSTANT Prop = "C09"\n'),
+    "C10": ("memflow", "Trace_C10", None), "C11": ("memflow", "Trace_C11", None), "C12": ("memflow", "Trace_C12", None), "C13": ("hdrgrid", "Trace_C13", None),
+    "C14": ("keyrt", "Trace_C14", None), "C15": ("keydec", "Trace_C15", None), "C16": (None, "Trace_C16", None), "C17": (None, "Trace_C17", None),
+    "C18": (None, "Trace_C18", None), "C19": ("memflow", "Trace_C19", None), "C20": ("memflow", "Trace_C20", None),
+}
+
+
 def replay(ctx, path):
+    """re-execute the case stored in a replay file against the current tree and let TLC judge it again"""
     with open(path) as f:
         doc = json.load(f)
-    raise Infra("replay not implemented yet")
+    pid = doc["property"]
+    if pid != ctx.id:
+        raise Infra("replay file belongs to %s" % pid)
+    ctx.replaying = True
+    ev = doc["event"]
+    op, module, extra = REPLAY[pid]
+    if op is None:
+        op = ev["op"]                      # C16 / C17 / C18 events name their executor
+    if op == "racestress":
+        events = race_run(ctx, [dict(ops=ev["ops"], decoded=ev["decoded"], workers=ev["workers"], iters=ev["iters"])])
+    else:
+        serial = dict(VERIF_SERIAL="1") if op in ("conc", "memflow") else None
+        events = harness(ctx, ["exec", op], [ev], env=serial)
+        if pid == "C08":
+            events[0]["out2"] = harness(ctx, ["exec", op], [ev])[0]["out"]
+        if pid == "C01":
+            events = [dict(flow=e["flow"], kind=e["kind"], alg=e["alg"], kk=e["kk"], h=e["h"], n=e["n"], obs=[dict(op=o["op"], res=o["res"]) for o in e["obs"]]) for e in events]
+    rejects = judge(ctx, module, events, extra_cfg=extra)
+    if rejects:
+        print("VIOLATION property=%s replay=%s reason=%s" % (pid, path, ",".join(rejects[0])))
+        return 1
+    print("replay: not reproduced on the current tree (%s)" % path)
+    return 0
